@@ -127,7 +127,7 @@ def worker(jobs):
 
 
 def run(chk):
-    n = 80 if chk.tier == "quick" else 2000
+    n = 500 if chk.tier == "quick" else 2000
     chk.rule = ("random projects x --select/--disable/-D lists; (1) model correspondence with these arguments; (2) metamorphic on the "
                 "implementation: flags vs LAZE_* environment variables, repeated flags vs comma-separated, and flags vs the rewritten project "
                 "(X prepended to every app's selects; Y added to every builder's disables; V at the end of every app's global env): ninja "
